@@ -14,6 +14,8 @@ namespace Goat.DI
 @[simp] theorem push_defaultFactories (s : St) (n : Name) :
     (push s n).defaultFactories = s.defaultFactories := rfl
 @[simp] theorem push_autoclean (s : St) (n : Name) : (push s n).autoclean = s.autoclean := rfl
+@[simp] theorem push_injectors (s : St) (n : Name) : (push s n).injectors = s.injectors := rfl
+@[simp] theorem push_nextId (s : St) (n : Name) : (push s n).nextId = s.nextId := rfl
 @[simp] theorem push_log (s : St) (n : Name) : (push s n).log = s.log ++ [.start n] := rfl
 @[simp] theorem push_exhausted (s : St) (n : Name) : (push s n).exhausted = s.exhausted := rfl
 
@@ -21,11 +23,11 @@ namespace Goat.DI
 theorem Step.congr {s a b : St} (h : Step s a) (h1 : b.callstack = a.callstack) (h2 : b.keys = a.keys)
     (h3 : b.blocked = a.blocked) (h4 : b.autoclean = a.autoclean) (h5 : b.instances = a.instances)
     (h6 : b.factories = a.factories) (h7 : b.defaultFactories = a.defaultFactories)
-    (h8 : b.log = a.log) : Step s b := by
+    (h8 : b.log = a.log) (h9 : b.injectors = a.injectors) : Step s b := by
   obtain ⟨d, hd, l⟩ := h.log
   exact
     { callstack := h1 ▸ h.callstack, keys := h2 ▸ h.keys, blocked := h3 ▸ h.blocked,
-      autoclean := h4 ▸ h.autoclean, inst_mono := h5 ▸ h.inst_mono,
+      autoclean := h4 ▸ h.autoclean, injectors := h9 ▸ h.injectors, inst_mono := h5 ▸ h.inst_mono,
       tabs := by rw [h5, h6, h7]; exact h.tabs, fac_sub := h6 ▸ h.fac_sub, dfac_sub := h7 ▸ h.dfac_sub,
       stack_inst := h5 ▸ h.stack_inst,
       log := ⟨d, h8 ▸ hd, ⟨l.no_start, h5 ▸ l.done_inst, l.norerun, l.nodup⟩⟩ }
@@ -41,7 +43,8 @@ theorem bracket_fail {s s2 : St} {n : Name} (hi : s.instances n = none)
   obtain ⟨d, hd, l⟩ := h.log
   refine
     { callstack := take_pushed h.callstack, keys := h.keys, blocked := h.blocked,
-      autoclean := h.autoclean, inst_mono := h.inst_mono, tabs := h.tabs, fac_sub := h.fac_sub,
+      autoclean := h.autoclean, injectors := h.injectors, inst_mono := h.inst_mono, tabs := h.tabs,
+      fac_sub := h.fac_sub,
       dfac_sub := h.dfac_sub, stack_inst := ?_, log := ?_ }
   · intro m hm
     exact h.stack_inst m (by simp [hm])
@@ -72,7 +75,7 @@ theorem bracket_ok {s s2 : St} {n : Name} {i : Inst} {F D : Tab Factory} (hi : s
     rw [h.stack_inst n (by simp)]; exact hi
   refine
     { callstack := take_pushed h.callstack, keys := h.keys, blocked := h.blocked,
-      autoclean := h.autoclean, inst_mono := ?_, tabs := ?_, fac_sub := ?_,
+      autoclean := h.autoclean, injectors := h.injectors, inst_mono := ?_, tabs := ?_, fac_sub := ?_,
       dfac_sub := ?_, stack_inst := ?_, log := ?_ }
   · intro m j hm
     have hne : m ≠ n := by intro e; subst e; rw [hi] at hm; cases hm
@@ -152,7 +155,7 @@ theorem runFactory_step {g : St → Name → St × Res}
       | fail => exact h1
       | nilInst => exact h1
       | ok =>
-        exact h1.congr rfl rfl rfl rfl rfl rfl rfl rfl
+        exact h1.congr rfl rfl rfl rfl rfl rfl rfl rfl rfl
 
 theorem construct_step {g : St → Name → St × Res}
     (hg : ∀ s n, s.blocked = true → Step s (g s n).1) {s : St} {n : Name} (f : Factory)
@@ -170,18 +173,18 @@ theorem construct_step {g : St → Name → St × Res}
       cases dflt <;> cases hac : s2.autoclean
       · refine (bracket_ok (i := i) (F := s2.factories) (D := s2.defaultFactories) hi hn h2
           (fun _ _ => rfl) (fun _ _ h => h) (fun _ _ => rfl) (fun _ _ h => h)).congr
-          ?_ ?_ ?_ ?_ ?_ ?_ ?_ ?_ <;> simp [clean, hac]
+          ?_ ?_ ?_ ?_ ?_ ?_ ?_ ?_ ?_ <;> simp [clean, hac]
       · refine (bracket_ok (i := i) (F := s2.factories.del n) (D := s2.defaultFactories.del n) hi hn h2
           (fun _ h => Tab.del_ne _ h) (fun _ _ h => Tab.del_some h)
           (fun _ h => Tab.del_ne _ h) (fun _ _ h => Tab.del_some h)).congr
-          ?_ ?_ ?_ ?_ ?_ ?_ ?_ ?_ <;> simp [clean, hac]
+          ?_ ?_ ?_ ?_ ?_ ?_ ?_ ?_ ?_ <;> simp [clean, hac]
       · refine (bracket_ok (i := i) (F := s2.factories) (D := s2.defaultFactories) hi hn h2
           (fun _ _ => rfl) (fun _ _ h => h) (fun _ _ => rfl) (fun _ _ h => h)).congr
-          ?_ ?_ ?_ ?_ ?_ ?_ ?_ ?_ <;> simp [hac]
+          ?_ ?_ ?_ ?_ ?_ ?_ ?_ ?_ ?_ <;> simp [hac]
       · refine (bracket_ok (i := i) (F := s2.factories) (D := s2.defaultFactories.del n) hi hn h2
           (fun _ _ => rfl) (fun _ _ h => h)
           (fun _ h => Tab.del_ne _ h) (fun _ _ h => Tab.del_some h)).congr
-          ?_ ?_ ?_ ?_ ?_ ?_ ?_ ?_ <;> simp [hac]
+          ?_ ?_ ?_ ?_ ?_ ?_ ?_ ?_ ?_ <;> simp [hac]
 
 /-- the state `Get` works on is blocked or idle -/
 def Pre (s : St) : Prop := s.blocked = true ∨ s.callstack = []
@@ -194,7 +197,7 @@ theorem get_step : ∀ (fuel : Nat) (s : St) (n : Name), Pre s → Step s (get f
     intro s n hp
     have h := block_step hp
     -- running out of fuel only sets the ghost flag
-    exact h.congr rfl rfl rfl rfl rfl rfl rfl rfl
+    exact h.congr rfl rfl rfl rfl rfl rfl rfl rfl rfl
   | succ fuel ih =>
     intro s0 n hp
     have h0 := block_step hp
